@@ -296,3 +296,55 @@ func opStress(t Task) Result {
 	}
 	return Result{"bad": bad, "pipelines": g * rounds * len(inputs)}
 }
+
+func init() { register("cold_start", opColdStart) }
+
+// cold_start: meant to be the FIRST task of a fresh process.  Every input is run through the whole pipeline on a goroutine of
+// its own, all released at once, before anything in the library has been used in this process (lazily built tables, sync.Once-less
+// caches and pools are in their initial state); only then are the sequential results computed and compared.
+func opColdStart(t Task) Result {
+	type in struct {
+		src []byte
+		ver string
+	}
+	var inputs []in
+	for _, x := range tArr(t, "inputs") {
+		m := x.(map[string]interface{})
+		inputs = append(inputs, in{s2b(m["src"].(string)), m["ver"].(string)})
+	}
+	outs := make([]pipeOut, len(inputs))
+	panics := make([]string, len(inputs))
+	start := make(chan struct{})
+	var wg sync.WaitGroup
+	for i := range inputs {
+		wg.Add(1)
+		go func(i int) {
+			defer wg.Done()
+			defer func() {
+				if r := recover(); r != nil {
+					panics[i] = fmt.Sprint(r)
+				}
+			}()
+			<-start
+			outs[i] = pipeline(append([]byte(nil), inputs[i].src...), inputs[i].ver, nil, nil)
+		}(i)
+	}
+	close(start)
+	wg.Wait()
+	var bad []interface{}
+	for i := range inputs {
+		if panics[i] != "" {
+			bad = append(bad, map[string]interface{}{"what": "panic", "msg": panics[i], "input": i})
+			continue
+		}
+		seq := pipeline(append([]byte(nil), inputs[i].src...), inputs[i].ver, nil, nil)
+		if d := outs[i].diff(seq); d != "" && len(bad) < 5 {
+			bad = append(bad, map[string]interface{}{"what": d, "input": i})
+		}
+	}
+	res := Result{"pipelines": len(inputs)}
+	if len(bad) > 0 {
+		res["bad"] = bad
+	}
+	return res
+}
